@@ -250,7 +250,8 @@ func (c *callEngine) callWithStack(ctx context.Context, paramResultStack []uint6
 		r := recover()
 		if s, ok := r.(*snapshot); ok {
 			// A snapshot that wasn't handled was created by a different call engine possibly from a nested wasm invocation,
-			// let it propagate up to be handled by the caller.
+			// let it propagate up to be handled by the caller. This call is over: ensures that we can reuse this callEngine.
+			c.execCtx.exitCode = wazevoapi.ExitCodeOK
 			panic(s)
 		}
 		if r != nil {
